@@ -253,3 +253,62 @@ func VxC08StringPrint() {
 		vxAssert(eq, "equal-print-implies-equal")
 	}
 }
+
+// VxC08Compose: the printed form of a composite is composed of the printed forms of its parts:
+// a map / struct with two entries prints every "key : value" with the value's own String()
+// (escaped strings, constructor forms of times and durations), a list prints its elements'
+// String() forms. Values: one-byte strings and byte strings (symbolic byte, so quotes, backslashes
+// and control characters are included), numbers, durations and times from small lists.
+func VxC08Compose() {
+	val := func(id string) Constant {
+		switch vxChoose(id+"_kind", 4) {
+		case 0:
+			return String(vxString(id+"_s", 1))
+		case 1:
+			return Bytes(vxBytes(id+"_b", 1))
+		case 2:
+			return Duration([]int64{0, 90000000000}[vxChoose(id+"_d", 2)])
+		}
+		return Time([]int64{0, 1700000000000000000}[vxChoose(id+"_t", 2)])
+	}
+	v1, v2 := val("v1"), val("v2")
+	if v1.Type == StringType {
+		vxAssume(utf8.ValidString(v1.Symbol))
+	}
+	if v2.Type == StringType {
+		vxAssume(utf8.ValidString(v2.Symbol))
+	}
+	ka, _ := Name("/a")
+	kb, _ := Name("/b")
+	var whole Constant
+	var keys []Constant
+	switch vxChoose("composite", 3) {
+	case 0:
+		whole = *Struct(map[*Constant]*Constant{&ka: &v1, &kb: &v2})
+		keys = []Constant{ka, kb}
+	case 1:
+		k1, k2 := Number(1), Number(2)
+		whole = *Map(map[*Constant]*Constant{&k1: &v1, &k2: &v2})
+		keys = []Constant{k1, k2}
+	default:
+		whole = List([]Constant{v1, v2})
+	}
+	p := whole.String()
+	vxReach("printed")
+	vxObserve("printed", p)
+	if keys != nil {
+		open, close := "{", "}"
+		if whole.Type == MapShape {
+			open, close = "[", "]"
+		}
+		e1 := keys[0].String() + " : " + v1.String()
+		e2 := keys[1].String() + " : " + v2.String()
+		ok := p == open+e1+", "+e2+close
+		if !ok {
+			ok = p == open+e2+", "+e1+close
+		}
+		vxAssert(ok, "composite-prints-entries-with-value-String")
+	} else {
+		vxAssert(p == "["+v1.String()+", "+v2.String()+"]", "list-prints-elements-String")
+	}
+}
